@@ -130,8 +130,9 @@ def _component_coverage_paths(check: Check, repo) -> None:
 STATE_FIELD_ROLES = {
     # saved by checkpoint(), released by ok(), reinstated by restore()
     "pos": "backtracked", "user_stack": "backtracked", "rule_stack": "backtracked", "atomic_depth": "backtracked", "_pos_history": "backtracked (the saved positions)",
+    "tag_stack": "backtracked (a rule takes the pending tag for its pair; checkpoint() saves a copy, restore() reinstates it - since the fix for lost tags)", "_tag_history": "backtracked (the saved tag stacks)",
     # changed and changed back around a sub-parse by the construct that changes them
-    "neg_pred_depth": "scoped", "_suppress_failures": "scoped", "tag_stack": "scoped",
+    "neg_pred_depth": "scoped", "_suppress_failures": "scoped",
     "hide_pairs": "scoped (set by a rule for its body inside atomic_checkpoint(), which puts the entry value back)",
     # the furthest-failure record only ever moves forward; it is an output, never read by matching
     "furthest_pos": "record", "furthest_expected": "record", "furthest_unexpected": "record", "furthest_stack": "record",
